@@ -39,6 +39,8 @@ type ClusterOptions struct {
 	// PeerURL, if set, returns the URL node `from` must use to reach node `to` (link proxies);
 	// the default is the real raft listener of `to`.
 	PeerURL func(from, to int, real string) string
+	// NodeEnv, if set, returns extra environment for node id (in addition to Env).
+	NodeEnv func(id int, dir string) []string
 }
 
 // StartCluster boots Size nodes and waits until every node serves a write.
@@ -61,7 +63,11 @@ func StartCluster(o ClusterOptions) (*Cluster, error) {
 		if err != nil {
 			return nil, err
 		}
-		c.Nodes = append(c.Nodes, &Node{ID: i, Port: p, RaftPort: rp, Dir: filepath.Join(dir, fmt.Sprintf("n%d", i))})
+		nd := &Node{ID: i, Port: p, RaftPort: rp, Dir: filepath.Join(dir, fmt.Sprintf("n%d", i))}
+		if o.NodeEnv != nil {
+			nd.env = o.NodeEnv(i, nd.Dir)
+		}
+		c.Nodes = append(c.Nodes, nd)
 		c.peers = append(c.peers, fmt.Sprintf("http://127.0.0.1:%d", rp))
 	}
 	for _, nd := range c.Nodes {
